@@ -24,7 +24,8 @@ BOUNDS['C17'] = ('1 (quick) / 3 (thorough) freshly generated 2048-bit keys; toke
 BOUNDS['C18'] = ('loopback sockets, real time: 6 peer fragmentations x 4 request-size plans; silent peer with timeouts {0.1, 0.25}; data before / '
                  'after the next read; small socket buffers with 1-3 MiB writes; close twice and reconnect; one connect/shell/push/pull session; 2 transports')
 BOUNDS['C20'] = ('fake usb1 backend: timeouts {None, 0, 0.5, 1.5, 2, 9.25} incl. a fractional default; short transfers {1, 7, 64}; endpoint orders; '
-                 'interface numbers {0, 1, 3}; USBError injected at every backend call index of a connect/write/read/close history; one session')
+                 'interface numbers {0, 1, 3}; USBError injected at every backend call index of a connect/write/read/close history; every call from index 4..8 on failing (NoDevice, IO, Pipe) '
+                 'incl. the serial number lookup; one session')
 
 
 def mod(name):
@@ -768,7 +769,7 @@ class FakeUsb(object):
 
     def getSerialNumber(self):
         if getattr(self, 'unplugged', False):
-            raise self.usb1.USBErrorNoDevice('device is gone')
+            raise getattr(self.usb1, getattr(self, 'gone_cls', 'USBErrorNoDevice'))('device is gone')
         return 'SIM0001'
 
     def getDeviceAddress(self):
@@ -860,7 +861,8 @@ def c20_params(budget):
         yield {'what': 'bigwrite', 'size': size, 'short': short}
     yield {'what': 'kernel-driver'}
     for k in range(4, 9):
-        yield {'what': 'unplug', 'k': k}
+        for cls in ('USBErrorNoDevice', 'USBErrorIO', 'USBErrorPipe'):     # unplugged / hung device / stalled endpoints
+            yield {'what': 'unplug', 'k': k, 'cls': cls}
     yield {'what': 'session', 'short': None}
     yield {'what': 'session', 'short': 64}
 
@@ -991,8 +993,10 @@ def c20_run(p):
             out.append(fail(p, 'libusb rule broken: ' + pr))
         return out
     if p['what'] == 'unplug':
-        # the device disappears: every backend call from index k on fails with USBErrorNoDevice, the serial number lookup included
+        # the device disappears or hangs: every backend call from index k on fails with the same USBError subclass, the serial
+        # number lookup (used by the error messages) included
         fu = FakeUsb(usb1, 1, 0x81, 0x02)
+        fu.gone_cls = p.get('cls', 'USBErrorNoDevice')
         t = Usb(fu, FakeSetting(1, [0x81, 0x02]))
         t.connect(1.0)
         real_call = fu._call
@@ -1002,7 +1006,7 @@ def c20_run(p):
                 fu.unplugged = True
                 fu.calls += 1
                 fu.log.append((what,) + a)
-                raise usb1.USBErrorNoDevice('unplugged at backend call %d (%s)' % (fu.calls - 1, what))
+                raise getattr(usb1, fu.gone_cls)('unplugged at backend call %d (%s)' % (fu.calls - 1, what))
             return real_call(what, *a)
         fu._call = call
         for name, f, E in (('bulk_write', lambda: t.bulk_write(b'abcdef', 1.0), 'UsbWriteFailedError'), ('bulk_read', lambda: t.bulk_read(6, 1.0), 'UsbReadFailedError'),
